@@ -170,7 +170,11 @@ func body(r *explore.Run, sc scenario, rep *report.R) {
 	armed := false
 	deletedAtStart := false
 	var lagTaken []string
-	inj := &xrh.FaultInjector{Run: r, Reads: sc.reads, Filter: func(c simkube.Call) bool { return c.Client == "claim" }}
+	inj := &xrh.FaultInjector{Run: r, Reads: sc.reads, NotFoundReads: true,
+		// The property quantifies over stale reads of the *claim*: a cache
+		// that has not seen the claim yet answers 404.
+		NotFoundFilter: func(c simkube.Call) bool { return c.Key.Kind == xrh.ClaimGVK.Kind },
+		Filter:         func(c simkube.Call) bool { return c.Client == "claim" }}
 	s.Inj = inj
 	cc := &lagClient{Client: s.Client("claim"), r: r, armed: &armed, taken: &lagTaken}
 	mkClaim := func() *claimRec { return &claimRec{xrh.NewClaimReconciler(xrd, cc, sc.ssa)} }
